@@ -371,7 +371,7 @@ class Cleanup:
 
 
 def centrifugate_hints(
-    source: Source, match_isolated_hints: Callable = regex.compile(fr"\s*{HINT_COMMENT} (.+)").match
+    source: Source, match_isolated_hints: Callable = regex.compile(fr"\s*{HINT_COMMENT}(?: (.*))?$").match
 ) -> Source:
     """Transform the isolated hints into all-encompassing hints.
 
@@ -445,11 +445,11 @@ def centrifugate_hints(
     for line in source.split("\n"):
         m = match_isolated_hints(line)
         if m:
-            hints.update(m[1].split())
+            hints.update((m[1] or "").split())
         else:
             lines.append(line)
     if not hints:
-        return source
+        return Source("\n".join(lines))
     for i in (0, -1):
         if f" {HINT_COMMENT}" not in lines[i]:
             lines[i] += f" {HINT_COMMENT}"
